@@ -269,7 +269,7 @@ if r1 is not h1: bad.append('C15 HOLDER: Calculate did not return the supplied h
 call(S, y); call(O, [float(O.lowerBoundOfFloatVariables[0]) + 0.41 * (float(O.upperBoundOfFloatVariables[0]) - float(O.lowerBoundOfFloatVariables[0]))])
 if variant in ('at-optimum', 'reused-buffer'):
     vy = float(call(P, y)[1].value); vo = float(call(P, xo)[1].value)
-    if vy != ref_y or vo != ref_xo: bad.append('C15 HISTORY: %s(%s): after earlier evaluations f(%r) = %r (fresh instance %r), f(x*) = %r (fresh instance %r)' % (family, fn, y, vy, ref_y, vo, ref_xo))
+    if vy != ref_y or vo != ref_xo: bad.append('C15 HISTORY: %%s(%%s): after earlier evaluations f(%%r) = %%r (fresh instance %%r), f(x*) = %%r (fresh instance %%r)' %% (family, fn, y, vy, ref_y, vo, ref_xo))
 if variant in ('full', 'partial'): call(P, y)
 if variant == 'partial' and len(x) > 1:
     call(S, [y[0]] + x[1:]); call(P, [x[0]] + y[1:])
